@@ -61,6 +61,7 @@ type State struct {
 	Steps  int
 	Trace  []string // revealed symbols so far, for witnesses (not part of the key)
 	Notes  map[string]bool
+	Path   []string // decided atoms ("<atom>=T/F") of forks on named conditions
 }
 
 type HookFn func(m *Machine, st *State, call *ssa.CallCommon, args []Val) (alts []Val, handled bool)
@@ -75,6 +76,7 @@ type Machine struct {
 	Curs      *cursorInfo
 	live      map[*ssa.Function]*liveInfo
 	fnIdx     map[*ssa.Function]int
+	InvokeHook func(m *Machine, st *State, call *ssa.CallCommon, recv Val, args []Val) ([]Val, bool)
 	OnAppend  func(st *State, site ssa.Instruction, slice Val, elems []Val)
 	OnStore   func(st *State, site *ssa.Store, addr Ptr, v Val)
 	Stuck     map[string]int
@@ -134,6 +136,7 @@ func (st *State) Clone() *State {
 		n.Frames = append(n.Frames, nf)
 	}
 	n.Trace = append([]string(nil), st.Trace...)
+	n.Path = append([]string(nil), st.Path...)
 	n.Notes = make(map[string]bool, len(st.Notes))
 	for k := range st.Notes {
 		n.Notes[k] = true
@@ -295,7 +298,7 @@ func (m *Machine) constVal(c *ssa.Const) Val {
 		}
 		return n
 	}
-	return Unknown{"const " + c.String()}
+	return Unknown{Why: "const " + c.String()}
 }
 
 func (m *Machine) get(st *State, fr *Frame, v ssa.Value) Val {
@@ -307,13 +310,13 @@ func (m *Machine) get(st *State, fr *Frame, v ssa.Value) Val {
 	case *ssa.Builtin:
 		return &FuncV{Fn: x}
 	case *ssa.Global:
-		return Unknown{"global " + x.Name()}
+		return Unknown{Why: "global " + x.Name()}
 	}
 	if r, ok := fr.Regs[v]; ok {
 		return r
 	}
 	st.stuck("read of undefined register %s in %s", v.Name(), fname(fr.Fn))
-	return Unknown{"undef"}
+	return Unknown{Why: "undef"}
 }
 
 // Run executes st until every fork is returned, blocked, stuck or panicked.
@@ -406,6 +409,10 @@ func (m *Machine) step(st *State) (forks []*State) {
 			fr.Prev, fr.Blk, fr.PC = fr.Blk, fr.Blk.Succs[0], 0
 			st.Notes["fork:"+m.P.Pos(x.Cond.Pos())] = true
 			other.Notes["fork:"+m.P.Pos(x.Cond.Pos())] = true
+			if b.Atom != "" {
+				st.Path = append(st.Path, b.Atom+"=T")
+				other.Path = append(other.Path, b.Atom+"=F")
+			}
 			return []*State{other}
 		default:
 			st.stuck("branch on %s", fmtVal(c, func(i int) string { return fmt.Sprint(i) }))
@@ -481,7 +488,7 @@ func (m *Machine) step(st *State) (forks []*State) {
 					return nil
 				}
 				if _, unk := v.(Unknown); unk {
-					set(Unknown{"load through unknown"})
+					set(Unknown{Why: "load through unknown"})
 					return nil
 				}
 				st.stuck("load through %T", v)
@@ -498,6 +505,9 @@ func (m *Machine) step(st *State) (forks []*State) {
 			case bool:
 				set(!b)
 			case Unknown:
+				if b.Atom != "" {
+					b.Atom = "!(" + b.Atom + ")"
+				}
 				set(b)
 			default:
 				st.stuck("! of %T", v)
@@ -544,7 +554,7 @@ func (m *Machine) step(st *State) (forks []*State) {
 		t, ok := v.(*TupleV)
 		if !ok {
 			if _, unk := v.(Unknown); unk {
-				set(Unknown{"extract of unknown"})
+				set(Unknown{Why: "extract of unknown"})
 				return nil
 			}
 			st.stuck("extract from %T", v)
@@ -556,7 +566,7 @@ func (m *Machine) step(st *State) (forks []*State) {
 		s, ok := v.(*StructV)
 		if !ok {
 			if _, unk := v.(Unknown); unk {
-				set(Unknown{"field of unknown"})
+				set(Unknown{Why: "field of unknown"})
 				return nil
 			}
 			st.stuck("field of %T", v)
@@ -573,7 +583,7 @@ func (m *Machine) step(st *State) (forks []*State) {
 				return nil
 			}
 			if _, unk := v.(Unknown); unk {
-				set(Unknown{"fieldaddr of unknown"})
+				set(Unknown{Why: "fieldaddr of unknown"})
 				return nil
 			}
 			st.stuck("fieldaddr of %T", v)
@@ -814,6 +824,15 @@ func (m *Machine) doCall(st *State, fr *Frame, x *ssa.Call) []*State {
 	}
 	if cc.IsInvoke() {
 		recv := m.get(st, fr, cc.Value)
+		if m.InvokeHook != nil {
+			alts, handled := m.InvokeHook(m, st, cc, recv, args)
+			if st.Status != stRun {
+				return nil
+			}
+			if handled {
+				return finish(alts)
+			}
+		}
 		iv, ok := recv.(IfaceV)
 		if !ok {
 			if _, isnil := recv.(nilV); isnil {
@@ -911,7 +930,7 @@ func (m *Machine) builtin(st *State, x *ssa.Call, name string, args []Val) (Val,
 			if s.NonE {
 				return PosInt{}, true
 			}
-			return Unknown{"len of abstract string"}, true
+			return Unknown{Why: "len of abstract string"}, true
 		case SliceV:
 			if s.Abs {
 				if s.Many {
@@ -923,7 +942,7 @@ func (m *Machine) builtin(st *State, x *ssa.Call, name string, args []Val) (Val,
 		case nilV:
 			return int64(0), true
 		case Unknown, OpaqueV:
-			return Unknown{"len of unknown"}, true
+			return Unknown{Why: "len of unknown"}, true
 		case *ArrayV:
 			return int64(len(s.E)), true
 		}
@@ -1083,10 +1102,16 @@ func (m *Machine) binop(st *State, op token.Token, a, b Val, opType types.Type) 
 		return 0, false
 	}
 	if _, ok := a.(OpaqueV); ok {
-		return Unknown{"operation on opaque value"}, true
+		return Unknown{Why: "operation on opaque value", Atom: atomOf(op, a, b)}, true
 	}
 	if _, ok := b.(OpaqueV); ok {
-		return Unknown{"operation on opaque value"}, true
+		return Unknown{Why: "operation on opaque value", Atom: atomOf(op, a, b)}, true
+	}
+	if _, isLin := a.(LinV); isLin {
+		return m.linop(st, op, a, b)
+	}
+	if _, isLin := b.(LinV); isLin {
+		return m.linop(st, op, a, b)
 	}
 	// tape length against a position
 	if tl, ok := b.(TapeLen); ok {
@@ -1122,7 +1147,7 @@ func (m *Machine) binop(st *State, op token.Token, a, b Val, opType types.Type) 
 				return false, true
 			}
 		}
-		return Unknown{"positive length compared"}, true
+		return Unknown{Why: "positive length compared"}, true
 	}
 	if _, ok := b.(PosInt); ok {
 		return m.binop(st, flipOp(op), b, a, opType)
@@ -1186,7 +1211,7 @@ func (m *Machine) binop(st *State, op token.Token, a, b Val, opType types.Type) 
 	_, sa := a.(SymV)
 	_, sb := b.(SymV)
 	if ua || ub || sa || sb {
-		return Unknown{"arith on unknown"}, true
+		return Unknown{Why: "arith on unknown"}, true
 	}
 	if ba, ok := a.(bool); ok {
 		if bb, ok := b.(bool); ok {
@@ -1327,7 +1352,7 @@ func (m *Machine) compare(st *State, op token.Token, a, b Val) (Val, bool) {
 			if x.C != y.C && (op == token.EQL || op == token.NEQ) {
 				return op == token.NEQ, true
 			}
-			return Unknown{"symbol classes compared"}, true
+			return Unknown{Why: "symbol classes compared"}, true
 		}
 	case bool:
 		if y, ok := b.(bool); ok {
@@ -1387,7 +1412,7 @@ func (m *Machine) compare(st *State, op token.Token, a, b Val) (Val, bool) {
 		case SliceV:
 			return op == token.NEQ, true // only a nil slice equals nil; non-nil slices (even empty) don't
 		case Unknown:
-			return Unknown{"nil compared with unknown"}, true
+			return Unknown{Why: "nil compared with unknown"}, true
 		}
 	case IfaceV:
 		if isNil(b) {
@@ -1405,7 +1430,7 @@ func (m *Machine) compare(st *State, op token.Token, a, b Val) (Val, bool) {
 			return op == token.NEQ, true
 		}
 	case Unknown:
-		return Unknown{"compare unknown"}, true
+		return Unknown{Why: "compare unknown"}, true
 	case *StructV:
 		if y, ok := b.(*StructV); ok && (op == token.EQL || op == token.NEQ) {
 			eq := true
@@ -1416,7 +1441,7 @@ func (m *Machine) compare(st *State, op token.Token, a, b Val) (Val, bool) {
 				}
 				rb, isB := r.(bool)
 				if !isB {
-					return Unknown{"struct compare"}, true
+					return Unknown{Why: "struct compare"}, true
 				}
 				if !rb {
 					eq = false
@@ -1429,7 +1454,7 @@ func (m *Machine) compare(st *State, op token.Token, a, b Val) (Val, bool) {
 		}
 	}
 	if _, ok := b.(Unknown); ok {
-		return Unknown{"compare unknown"}, true
+		return Unknown{Why: "compare unknown"}, true
 	}
 	st.stuck("comparison %s of %T and %T", op, a, b)
 	return nil, false
@@ -1442,7 +1467,7 @@ func (m *Machine) cmpSymInt(op token.Token, s SymV, n int64) Val {
 		if first {
 			res, first = r, false
 		} else if r != res {
-			return Unknown{"alphabet class too coarse for comparison"}
+			return Unknown{Why: "alphabet class too coarse for comparison"}
 		}
 	}
 	return res
@@ -1450,7 +1475,7 @@ func (m *Machine) cmpSymInt(op token.Token, s SymV, n int64) Val {
 
 func (m *Machine) cmpAbs(op token.Token, a, b Val) (Val, bool) {
 	if op != token.EQL && op != token.NEQ {
-		return Unknown{"ordering of abstract strings"}, true
+		return Unknown{Why: "ordering of abstract strings"}, true
 	}
 	x, ok1 := m.toAbs(a)
 	y, ok2 := m.toAbs(b)
@@ -1472,7 +1497,7 @@ func (m *Machine) cmpAbs(op token.Token, a, b Val) (Val, bool) {
 				}
 			}
 		}
-		return Unknown{"abstract string compared"}, true
+		return Unknown{Why: "abstract string compared"}, true
 	}
 	if x.Exact && y.Exact {
 		if len(x.Syms) != len(y.Syms) {
@@ -1488,7 +1513,7 @@ func (m *Machine) cmpAbs(op token.Token, a, b Val) (Val, bool) {
 			}
 		}
 		if maybe {
-			return Unknown{"strings over coarse classes compared"}, true
+			return Unknown{Why: "strings over coarse classes compared"}, true
 		}
 		return ans(true)
 	}
@@ -1510,7 +1535,7 @@ func (m *Machine) cmpAbs(op token.Token, a, b Val) (Val, bool) {
 	if kx && ky && ex && ey {
 		return ans(true)
 	}
-	return Unknown{"abstract string compared"}, true
+	return Unknown{Why: "abstract string compared"}, true
 }
 
 func (m *Machine) convert(st *State, v Val, from, to types.Type) (Val, bool) {
@@ -1524,7 +1549,7 @@ func (m *Machine) convert(st *State, v Val, from, to types.Type) (Val, bool) {
 		switch x := v.(type) {
 		case int64:
 			return truncTo(x, to), true
-		case SymV, PosInt:
+		case SymV, PosInt, LinV, OpaqueV:
 			return v, true
 		}
 	case fb != nil && tb != nil && fb.Info()&types.IsInteger != 0 && tb.Info()&types.IsString != 0:
@@ -1548,6 +1573,9 @@ func (m *Machine) convert(st *State, v Val, from, to types.Type) (Val, bool) {
 				return AbsStr{NonE: true}, true
 			}
 			_ = sl
+			if name, ok := opaqueRun(elems); ok {
+				return OpaqueV{name}, true
+			}
 			allInt := true
 			out := AbsStr{Exact: true}
 			var sb strings.Builder
@@ -1568,7 +1596,7 @@ func (m *Machine) convert(st *State, v Val, from, to types.Type) (Val, bool) {
 						out.Syms = append(out.Syms, -2)
 					}
 				default:
-					return Unknown{"string of slice"}, true
+					return Unknown{Why: "string of slice"}, true
 				}
 			}
 			if allInt {
@@ -1780,4 +1808,100 @@ func (m *Machine) Key(st *State) string {
 		undo()
 	}
 	return b.String()
+}
+
+
+// opaqueRun recognises a run of opaque bytes "x[i]", "x[i+1]", ... and names it "x[i:j]".
+func opaqueRun(elems []Val) (string, bool) {
+	if len(elems) == 0 {
+		return "", false
+	}
+	base := ""
+	lo := 0
+	for k, e := range elems {
+		o, ok := e.(OpaqueV)
+		if !ok {
+			return "", false
+		}
+		var b string
+		var i int
+		if n, _ := fmt.Sscanf(strings.Replace(o.Name, "[", " [ ", 1), "%s [ %d]", &b, &i); n != 2 {
+			return "", false
+		}
+		if k == 0 {
+			base, lo = b, i
+		} else if b != base || i != lo+k {
+			return "", false
+		}
+	}
+	return fmt.Sprintf("%s[%d:%d]", base, lo, lo+len(elems)), true
+}
+
+func atomOf(op token.Token, a, b Val) string {
+	r := func(v Val) string {
+		switch x := v.(type) {
+		case OpaqueV:
+			return x.Name
+		case LinV:
+			return x.String()
+		case string:
+			return fmt.Sprintf("%q", x)
+		case int64:
+			return fmt.Sprint(x)
+		}
+		return fmtVal(v, func(i int) string { return fmt.Sprint(i) })
+	}
+	return r(a) + " " + op.String() + " " + r(b)
+}
+
+// linop: arithmetic and comparisons on symbolic integers.
+func (m *Machine) linop(st *State, op token.Token, a, b Val) (Val, bool) {
+	x, okx := linOf(a)
+	y, oky := linOf(b)
+	if !okx || !oky {
+		if _, u := a.(Unknown); u {
+			return Unknown{Why: "arith on unknown"}, true
+		}
+		if _, u := b.(Unknown); u {
+			return Unknown{Why: "arith on unknown"}, true
+		}
+		st.stuck("symbolic integer combined with %T / %T", a, b)
+		return nil, false
+	}
+	norm := func(l LinV) Val {
+		if l.isConst() {
+			return l.C
+		}
+		return l
+	}
+	switch op {
+	case token.ADD:
+		return norm(x.add(y, 1)), true
+	case token.SUB:
+		return norm(x.add(y, -1)), true
+	case token.MUL:
+		if y.isConst() {
+			return norm(x.scale(y.C)), true
+		}
+		if x.isConst() {
+			return norm(y.scale(x.C)), true
+		}
+	case token.REM:
+		if y.isConst() && y.C != 0 {
+			return linSym(fmt.Sprintf("(%s)%%%d", x.String(), y.C)), true
+		}
+	case token.QUO:
+		if y.isConst() && y.C != 0 {
+			return linSym(fmt.Sprintf("(%s)/%d", x.String(), y.C)), true
+		}
+	case token.EQL, token.NEQ, token.LSS, token.LEQ, token.GTR, token.GEQ:
+		d := x.add(y, -1)
+		if d.isConst() {
+			r, _ := cmpInt(op, d.C, 0)
+			return r, true
+		}
+		return Unknown{Why: "symbolic comparison", Atom: x.String() + " " + op.String() + " " + y.String()}, true
+	}
+	st.stuck("operator %s on symbolic integers", op)
+	return nil, false
 }
